@@ -190,9 +190,10 @@ Next == NextOver(1..Len(pool), 1..Len(pool), 0..MaxLen, Elems)
 \* function is left to the simulator; a final Finish step makes every behaviour end in exactly
 \* one state in which the history is exported
 Finish == steps = MaxSteps /\ steps' = steps + 1 /\ UNCHANGED <<heap, pool, hist>>
+\* (the dependence on the variable steps keeps TLC from caching a draw from a constant set)
+Rnd(S) == RandomElement({x \in S : steps >= 0})
 SimNext ==
-  \/ NextOver({RandomElement(1..Len(pool))}, {RandomElement(1..Len(pool))},
-              {RandomElement(0..MaxLen)}, {RandomElement(Elems)})
+  \/ NextOver({Rnd(1..Len(pool))}, {Rnd(1..Len(pool))}, {Rnd(0..MaxLen)}, {Rnd(Elems)})
   \/ Finish
 SimSpec == Init /\ [][SimNext]_vars
 
